@@ -54,10 +54,11 @@ def kindFactor (kind : Kind) (R T : α) : α :=
 def radialIntensity (kind : Kind) (nt : Nat) (P : Nat → Nat → α) (R : Nat → α) (T : Nat → α) (dt : α) (k : Nat) : α :=
   (sumRange nt fun l => P k l * kindFactor kind (R k) (T l)) * dt
 
-/-- `toPES` on a radial grid, without the final sort: (E_k, PES_k);  `c` = energy_cal_factor -/
-def toPES (radial intensity : Nat → α) (c : α) (k : Nat) : α × α :=
+/-- `toPES` on a radial grid, without the final sort: (E_k, PES_k);  `c` = energy_cal_factor.  The Jacobian `1/(2r)` is applied to
+    every sample with `r ≠ 0` (since repair F49 by value, not by position) -/
+def toPES [LT α] [DecidableRel (α := α) (· < ·)] (radial intensity : Nat → α) (c : α) (k : Nat) : α × α :=
   let e := radial k * radial k * c
-  let i := if k = 0 then intensity 0 else intensity k / (((2 : Nat) : α) * radial k)
+  let i := if 0 < radial k ∨ radial k < 0 then intensity k / (((2 : Nat) : α) * radial k) else intensity k
   (e, i / c)
 
 /-- coordinate map of `circularize`: where output pixel (X, Y) (relative to the centre) is sampled -/
